@@ -305,3 +305,13 @@ pub fn option_value(line: &str, names: &[&str]) -> Option<String> {
         if names.contains(&k) { Some(if v.is_empty() { None } else { Some(v.to_string()) }) } else { None }
     })?
 }
+
+/// Like [`option_value`] for an option that may be repeated: the LAST occurrence counts (the crate's
+/// reading of a repeated single-valued option such as `tag=a,tag=b`).
+pub fn option_value_last(line: &str, names: &[&str]) -> Option<String> {
+    let i = line.rfind('$')?;
+    line[i + 1..].split(',').filter_map(|o| {
+        let (k, v) = match o.split_once('=') { Some((k, v)) => (k, v), None => (o, "") };
+        if names.contains(&k) { Some(if v.is_empty() { None } else { Some(v.to_string()) }) } else { None }
+    }).last()?
+}
